@@ -248,4 +248,8 @@ for _l in R.lemmas.values():
     if _l.replay is None:
         _l.replay = generic_replay(_l.func, [proto, loop, _sys.modules[__name__]], patches=LOOPPATCH)
 
+for _lid in ['L10.2', 'L10.4']:
+    if _lid in R.lemmas:
+        R.lemmas[_lid].api = True
+
 get_harness = R.get_harness
